@@ -318,3 +318,82 @@ Section BlasProofs.
        | intros p; rewrite fent_rent by congruence; reflexivity ]).
   Qed.
 End BlasProofs.
+
+(* ---------------------------------------------------------------- the k dimension of dsyrk / dsyr2k *)
+(* fff_blas_dsyrk passes k = A->size1 for NoTrans (A->size2 for Trans), i.e. the ROW
+   count n of op(A) instead of its column count; for op(A) = A = [1 2 3] (1 x 3) the
+   documented result A A^T = 14 is not what the call computes (it computes 1: the sum
+   is cut after n = 1 terms).  Same for dsyr2k. *)
+Lemma dsyrk_kdim_witness :
+  zcall_dsyrk CblasUpper CblasNoTrans 1%Z (zm 1 3 [1; 2; 3]%Z) 0%Z (zm 1 1 [0%Z]) = Some (OpC, [1%Z])
+  /\ zdoc_dsyrk CblasUpper CblasNoTrans 1%Z (zm 1 3 [1; 2; 3]%Z) 0%Z (zm 1 1 [0%Z]) = [14%Z].
+Proof. split; vm_compute; reflexivity. Qed.
+
+Definition zdoc_dsyr2k := doc_dsyr2k Z 0%Z Z.add Z.mul.
+Lemma dsyr2k_kdim_witness :
+  zcall_dsyr2k CblasUpper CblasNoTrans 1%Z (zm 1 2 [1; 2]%Z) (zm 1 2 [3; 4]%Z) 0%Z (zm 1 1 [0%Z]) = Some (OpC, [6%Z])
+  /\ zdoc_dsyr2k CblasUpper CblasNoTrans 1%Z (zm 1 2 [1; 2]%Z) (zm 1 2 [3; 4]%Z) 0%Z (zm 1 1 [0%Z]) = [22%Z].
+Proof. split; vm_compute; reflexivity. Qed.
+
+Theorem dsyrk_kdim_refuted :
+  exists u t alpha beta (A C : zrmat),
+    rm_s1 C = rm_s2 C /\ rm_s1 C = (if is_tr t then rm_s2 A else rm_s1 A) /\
+    zcall_dsyrk u t alpha A beta C <> Some (OpC, zdoc_dsyrk u t alpha A beta C).
+Proof.
+  exists CblasUpper, CblasNoTrans, 1%Z, 0%Z, (zm 1 3 [1; 2; 3]%Z), (zm 1 1 [0%Z]).
+  split; [reflexivity|]. split; [reflexivity|].
+  destruct dsyrk_kdim_witness as [-> ->]. discriminate.
+Qed.
+
+Theorem dsyr2k_kdim_refuted :
+  exists u t alpha beta (A B C : zrmat),
+    rm_s1 C = rm_s2 C /\ rm_s1 C = (if is_tr t then rm_s2 A else rm_s1 A) /\
+    rm_s1 B = rm_s1 A /\ rm_s2 B = rm_s2 A /\
+    zcall_dsyr2k u t alpha A B beta C <> Some (OpC, zdoc_dsyr2k u t alpha A B beta C).
+Proof.
+  exists CblasUpper, CblasNoTrans, 1%Z, 0%Z, (zm 1 2 [1; 2]%Z), (zm 1 2 [3; 4]%Z), (zm 1 1 [0%Z]).
+  repeat (split; [reflexivity|]).
+  destruct dsyr2k_kdim_witness as [-> ->]. discriminate.
+Qed.
+
+(* ---------------------------------------------------------------- the substitution does solve the system *)
+(* doc_dtrsv / doc_dtrsm are stated through forward substitution with an uninterpreted
+   division.  When the division is exact on the diagonal (a field; or Z with a +-1
+   diagonal as in the correspondence), forward substitution solves the lower-triangular
+   system.  (The upper case is the same algorithm on reversed indices - solve_upper;
+   the statement "op(A) X = alpha B" for it is not proved here.) *)
+Section SolveCorrect.
+  Variable R : Type.
+  Variables (r0 r1 : R) (radd rmul rsub : R -> R -> R) (ropp : R -> R).
+  Variable rdiv : R -> R -> R.
+  Hypothesis Rth : ring_theory r0 r1 radd rmul rsub ropp (@eq R).
+  Add Ring SolveRing : Rth.
+  Local Infix "+" := radd.
+  Local Infix "*" := rmul.
+  Local Infix "-" := rsub.
+  Local Notation sum_n := (sum_n R r0 radd).
+  Local Notation fwd := (fwd R r0 radd rmul rsub rdiv).
+
+  Lemma fwd_length (T : fm R) b n : length (fwd T b n) = n.
+  Proof.
+    induction n as [|n IH]; [reflexivity|]. cbn [BlasModel.fwd]. rewrite app_length, IH. cbn. lia.
+  Qed.
+
+  Theorem fwd_solves_lower (T : fm R) (b : nat -> R) n :
+    (forall i y, (i < n)%nat -> T i i * rdiv y (T i i) = y) ->
+    forall i, (i < n)%nat -> sum_n (S i) (fun l => T i l * nth l (fwd T b n) r0) = b i.
+  Proof.
+    induction n as [|n IH]; intros Hdiv i Hi; [lia|].
+    cbn [BlasModel.fwd].
+    assert (Hlen : length (fwd T b n) = n) by apply fwd_length.
+    assert (Hpre : forall m, (m <= n)%nat ->
+              forall x, sum_n m (fun l => T i l * nth l (fwd T b n ++ [x]) r0)
+                        = sum_n m (fun l => T i l * nth l (fwd T b n) r0)).
+    { intros m Hm x. apply (sum_n_ext R r0 radd). intros l Hl. rewrite app_nth1 by lia. reflexivity. }
+    destruct (Nat.eq_dec i n) as [->|Hne].
+    - cbn [BlasModel.sum_n]. rewrite Hpre by lia.
+      rewrite app_nth2 by lia. rewrite Hlen, Nat.sub_diag. cbn [nth].
+      rewrite Hdiv by lia. ring.
+    - rewrite Hpre by lia. apply IH; [|lia]. intros k y Hk. apply Hdiv. lia.
+  Qed.
+End SolveCorrect.
